@@ -40,6 +40,7 @@ type c24Case struct {
 	Phase  string `json:"phase,omitempty"` // wire: p0 (no response yet) | p1 (response headers sent) | p2 (headers + one message sent)
 	API    string `json:"api"`             // unary | stream
 	WFR    bool   `json:"wfr"`
+	Policy bool   `json:"policy,omitempty"` // ctxend: the method has a retry policy
 }
 
 func (c c24Case) String() string {
@@ -50,6 +51,12 @@ func (c c24Case) String() string {
 	ph := ""
 	if c.Phase != "" {
 		ph = "@" + c.Phase
+	}
+	if c.Source == "ctxend" {
+		m = "nopolicy"
+		if c.Policy {
+			m = "retrypolicy"
+		}
 	}
 	return fmt.Sprintf("%s/%s%s/%s/%s", c.Source, c.Item, ph, c.API, m)
 }
@@ -344,6 +351,7 @@ func c24Cases(thorough bool) []c24Case {
 			}
 		}
 	}
+	out = append(out, c24CtxCases()...)
 	for _, item := range c24CompressItems {
 		for _, api := range apis {
 			out = append(out, c24Case{Source: "compress", Item: item, API: api})
@@ -373,7 +381,13 @@ type c24Result struct {
 }
 
 func c24Run(t *testing.T, c c24Case) (res c24Result) {
-	problem := c24Bubble(t, func(t *testing.T) { c24RunInBubble(t, c, &res) })
+	problem := c24Bubble(t, func(t *testing.T) {
+		if c.Source == "ctxend" {
+			c24CtxRunInBubble(t, c, &res)
+		} else {
+			c24RunInBubble(t, c, &res)
+		}
+	})
 	if problem != "" {
 		if res.Engine == "" && len(res.Fails) == 0 {
 			res.Engine = problem
@@ -872,9 +886,9 @@ func TestVerif_C24_Errors(t *testing.T) {
 	defer r.Finish()
 	r.Rule(P, fmt.Sprintf("one synctest bubble per case on a real ClientConn; cases = error source x item x {Invoke, NewStream/SendMsg x2/CloseSend/RecvMsg..} x {fail-fast, wait-for-ready}: "+
 		"control-plane sources {picker, config selector, config-selector interceptor, dial-level per-RPC creds, call-level per-RPC creds} x menu of %d errors (status codes 0..16, wrapped status 3/14, plain error, ErrNoSubConnAvailable [picker: followed by a good picker], io.EOF, io.ErrUnexpectedEOF, context.Canceled, context.DeadlineExceeded); "+
-		"%d dialer faults on real pick_first; %d raw-server faults (close, 15 RST_STREAM codes, GOAWAY variants, trailers with 23 grpc-status values, malformed headers/trailers/DATA, connection-level protocol violations) at 3 RPC phases (before any response / after response headers / after one response message), depth 1; %d client-side error sources; %d codec/compressor cases against a real echo server (registered pass-through compressors failing in Compress/Write/Close/Decompress/Read on client send, server receive, server send, client receive; server-side Marshal/Unmarshal failures). "+
+		"%d dialer faults on real pick_first; %d raw-server faults (close, 15 RST_STREAM codes, GOAWAY variants, trailers with 23 grpc-status values, malformed headers/trailers/DATA, connection-level protocol violations) at 3 RPC phases (before any response / after response headers / after one response message), depth 1; %d 'context ends' cases: the RPC's deadline passes (1 s) or the application cancels (+500 ms) while the RPC is blocked at each of %d lifecycle points (no resolver result, no picker, ErrNoSubConnAvailable / non-READY / plain-error picks, per-RPC credentials blocked on ctx at call and dial level, stream quota, flow control, waiting for headers, waiting for a message, transparent-retry re-pick, retry back-off, server push-back wait, replay of buffered ops with NewStream waiting for quota / pick blocked) x {Invoke; NewStream+SendMsg x2+CloseSend+RecvMsg; NewStream+SendMsg+CloseSend+Header+RecvMsg; each streaming variant followed by one more Header, RecvMsg, SendMsg on the finished stream} x method {without, with} retry policy; %d client-side error sources; %d codec/compressor cases against a real echo server (registered pass-through compressors failing in Compress/Write/Close/Decompress/Read on client send, server receive, server send, client receive; server-side Marshal/Unmarshal failures). "+
 		"Every error returned by every API call is checked. A case is non-trivial when at least one non-nil, non-EOF error was returned to the application (distinct by case)",
-		len(c24Menu()), len(c24DialerItems), len(c24WireItems()), len(c24ClientItems), len(c24CompressItems)))
+		len(c24Menu()), len(c24DialerItems), len(c24WireItems()), len(c24CtxCases()), len(c24CtxPoints), len(c24ClientItems), len(c24CompressItems)))
 	r.Assume(P, "legal code = status.FromError ok and code in the 17 defined codes, or the very grpc-status number the peer sent (the gRPC spec allows propagating unknown codes); a non-nil error whose GRPCStatus says OK (only constructible by a custom error type, menu item status:0) is tallied as an outcome, not judged")
 	r.Assume(P, "the gRFC A54 oracle (7 restricted codes => INTERNAL, other codes preserved) is applied to picker, config-selector and per-RPC-credentials status errors, including status errors wrapped with %w; interceptor/dialer/transport errors are only required to be statuses")
 	r.Assume(P, "testing/synctest quiescence; every RPC carries a 1 s deadline so that blocking (wait-for-ready) paths terminate; depth-1 faults only (one fault per history)")
@@ -938,6 +952,8 @@ func c24Evaluate(r *vk.Run, c c24Case) {
 	r.Outcome(P, res.Outcome)
 	r.AddInt(P, "errors_checked", int64(res.NErrs))
 	switch c.String() {
+	case "ctxend/backoff@deadline/unary/retrypolicy", "ctxend/replay-quota@cancel/stream-header/retrypolicy", "ctxend/creds-call-raw@cancel/stream/nopolicy":
+		r.Sample(P, map[string]any{"case": c, "name": c.String(), "outcome": res.Outcome, "trace": res.Trace})
 	case "compress/c24zc.close/unary/ff", "compress/c24zs.read/stream/ff", "picker/status:3/unary/ff", "cfgsel/status:9/stream/wfr", "creds-call/plain/unary/ff", "wire/rst:7@p0/unary/ff", "wire/trl:grpc-status=99@p1/stream/ff", "dialer/http1-reply/unary/ff":
 		r.Sample(P, map[string]any{"case": c, "name": c.String(), "outcome": res.Outcome, "trace": res.Trace})
 	}
